@@ -149,6 +149,13 @@ class ExprCanon(ast.NodeTransformer):
             g = node.args[0]
             cls = ast.ListComp if f.id == "list" else ast.SetComp  # a frozenset built once is read like the set (membership, iteration)
             return ast.copy_location(cls(elt=g.elt, generators=g.generators), node)
+        # consumers that only iterate their argument: a list comprehension there is read like a generator expression
+        if len(node.args) == 1 and not node.keywords and isinstance(node.args[0], ast.ListComp) and (
+                (isinstance(f, ast.Attribute) and f.attr == "join") or
+                (isinstance(f, ast.Name) and f.id in ("sorted", "tuple", "any", "all", "sum", "min", "max", "enumerate", "frozenset", "dict") and f.id not in self.bound)):
+            lc = node.args[0]
+            node.args[0] = ast.copy_location(ast.GeneratorExp(elt=lc.elt, generators=lc.generators), lc)
+            return node
         # set(d.keys()) -> set(d)   (also list / sorted / tuple / frozenset / len / iter / enumerate)
         if isinstance(f, ast.Name) and f.id in ("set", "list", "sorted", "tuple", "frozenset", "iter", "enumerate") and node.args and _is_keys_call(node.args[0]):
             node.args[0] = node.args[0].func.value
@@ -281,7 +288,7 @@ def canon_text(text: str) -> str:
     if not isinstance(text, str) or not text:
         return text
     consts = pinned()["consts"]
-    if not any(k in text for k in consts) and not any(tok in text for tok in (" if ", ".union(", ".difference(", ".intersection(", ".keys()", "isinstance(", " + ", "set(", "list(", "frozenset(")) and "(" not in text:
+    if not any(k in text for k in consts) and not any(tok in text for tok in (" if ", ".union(", ".difference(", ".intersection(", ".keys()", "isinstance(", " + ", "set(", "list(", "frozenset(", "[")) and "(" not in text:
         return text
     # pseudo calls of the interpreter (<elem>(it), <pre>(e, n, k), <setitem>(d, k, v), <setattr>(o, a, v)) are not Python:
     # they are spelled as identifiers while the text is parsed and restored afterwards
@@ -289,7 +296,8 @@ def canon_text(text: str) -> str:
     ptext = text
     for a, b in pseudo:
         ptext = ptext.replace(a, b)
-    for mode in ("eval", "exec"):
+    kwfrag = re.match(r"^[A-Za-z_]\w*=[^=]", ptext) is not None  # "name=value[, ...]": keyword arguments, not an assignment
+    for mode in (("eval",) if kwfrag else ("eval", "exec")):
         try:
             tree = ast.parse(ptext, mode=mode)
         except SyntaxError:
